@@ -147,50 +147,55 @@ Theorem C01_unfaulted_encrypt_succeeds_with_session_closes : forall svc prod t0 
 Proof. exact unfaulted_encrypt_succeeds_closing. Qed.
 Print Assumptions C01_unfaulted_encrypt_succeeds_with_session_closes.
 
-(* ---- the default policy: every session owns its intermediate-key cache and Session.Close destroys it (Envelope/LiveD.v: the liveness
-   invariant relative to the set of destroyed caches; Envelope/LiveCloseD.v: closing a session adds its cache to that set) ---- *)
+(* ---- the default policy: every session owns its intermediate-key cache and Session.Close destroys it; SessionFactory.Close destroys the
+   factory's system-key cache and shared intermediate-key cache (Envelope/LiveD.v: the liveness invariant relative to the set of destroyed
+   caches; Envelope/LiveCloseD.v: the closes add caches to that set; cf = factories closed so far) ---- *)
 From Asherah Require Envelope.LiveD Envelope.LiveCloseD.
 
-Theorem C01_roundtrip_with_closes_of_sessions_that_own_their_cache : forall svc prod h s1 x1 payload faults,
-  HInv svc prod h -> LiveCloseD.HILD svc prod (h_world h) -> nth_error (w_sessions (h_world h)) s1 = Some x1 -> ss_torn x1 = false ->
+Theorem C01_roundtrip_with_closes_of_sessions_and_factories : forall svc prod cf h s1 x1 payload faults,
+  HInv svc prod h -> LiveCloseD.HILD svc prod cf (h_world h) -> nth_error (w_sessions (h_world h)) s1 = Some x1 -> ss_torn x1 = false ->
+  ~ In (ss_factory x1) cf ->
   match hstep h (HEncrypt s1 payload faults) with
   | (OEnc _ _, _, h1) =>
-      forall ops s2 x2, LiveCloseD.okrun svc prod h1 ops ->
+      forall ops s2 x2, LiveCloseD.okrun svc prod cf h1 ops ->
         let h2 := snd (hrun h1 ops) in
         LiveD.nz_store (w_store (h_world h2)) -> nth_error (w_sessions (h_world h2)) s2 = Some x2 -> ss_torn x2 = false ->
+        ~ In (ss_factory x2) (LiveCloseD.cf_run cf ops) ->
         p_id (ss_part x2) = p_id (ss_part x1) ->
         fst (fst (hstep h2 (HDecrypt s2 (List.length (h_recs h)) [] []))) = ODec (Some payload)
   | _ => True
   end.
 Proof. exact LiveCloseD.encrypt_then_decrypt_own_closing. Qed.
-Print Assumptions C01_roundtrip_with_closes_of_sessions_that_own_their_cache.
+Print Assumptions C01_roundtrip_with_closes_of_sessions_and_factories.
 
-Theorem C01_own_cache_closing_invariants_reachable : forall svc prod t0 ops,
-  LiveCloseD.okrun svc prod (hinit t0) ops ->
-  HInv svc prod (snd (hrun (hinit t0) ops)) /\ LiveCloseD.HILD svc prod (h_world (snd (hrun (hinit t0) ops))).
+Theorem C01_closing_invariants_reachable_all_policies : forall svc prod t0 ops,
+  LiveCloseD.okrun svc prod [] (hinit t0) ops ->
+  HInv svc prod (snd (hrun (hinit t0) ops)) /\ LiveCloseD.HILD svc prod (LiveCloseD.cf_run [] ops) (h_world (snd (hrun (hinit t0) ops))).
 Proof. exact LiveCloseD.closing_invariants_reachable_own. Qed.
-Print Assumptions C01_own_cache_closing_invariants_reachable.
+Print Assumptions C01_closing_invariants_reachable_all_policies.
 
-Example C01_own_cache_closing_nonvacuous :
+Example C01_closes_of_sessions_and_factories_nonvacuous :
   let h := snd (hrun (hinit Rotation.t0) LiveCloseD.own_closing_ops) in
-  LiveCloseD.okrun (s "svc") (s "prod") (hinit Rotation.t0) LiveCloseD.own_closing_ops /\ LiveD.nz_storeb (w_store (h_world h)) = true /\
-  fst (fst (hstep h (HDecrypt 1 0 [] []))) = ODec (Some 5%nat) /\ fst (fst (hstep h (HDecrypt 2 0 [] []))) = ODec (Some 5%nat) /\
+  LiveCloseD.okrun (s "svc") (s "prod") [] (hinit Rotation.t0) LiveCloseD.own_closing_ops /\ LiveCloseD.cf_run [] LiveCloseD.own_closing_ops = [0%nat] /\
+  LiveD.nz_storeb (w_store (h_world h)) = true /\
+  fst (fst (hstep h (HDecrypt 2 0 [] []))) = ODec (Some 5%nat) /\ fst (fst (hstep h (HDecrypt 2 1 [] []))) = ODec (Some 6%nat) /\
   fst (fst (hstep h (HDecrypt 0 0 [] []))) <> ODec (Some 5%nat).
 Proof. exact LiveCloseD.own_closing_nonvacuous. Qed.
 
 From Asherah Require Envelope.TotalD.
 
-Theorem C01_unfaulted_encrypt_succeeds_with_closes_of_sessions_that_own_their_cache : forall svc prod t0 ops s x fa payload,
-  LiveCloseD.okrun svc prod (hinit t0) ops ->
+Theorem C01_unfaulted_encrypt_succeeds_with_closes_of_sessions_and_factories : forall svc prod t0 ops s x fa payload,
+  LiveCloseD.okrun svc prod [] (hinit t0) ops ->
   let h := snd (hrun (hinit t0) ops) in
   let w := h_world h in
-  nth_error (w_sessions w) s = Some x -> ss_torn x = false -> nth_error (w_factories w) (ss_factory x) = Some fa ->
+  nth_error (w_sessions w) s = Some x -> ss_torn x = false -> ~ In (ss_factory x) (LiveCloseD.cf_run [] ops) ->
+  nth_error (w_factories w) (ss_factory x) = Some fa ->
   LiveD.nz_store (w_store w) -> new_key_timestamp (w_now w) (p_precision (fa_policy fa)) <> 0%Z ->
   exists pm c, fst (fst (hstep h (HEncrypt s payload []))) = OEnc pm c.
 Proof. exact TotalD.unfaulted_encrypt_succeeds_own_closing. Qed.
-Print Assumptions C01_unfaulted_encrypt_succeeds_with_closes_of_sessions_that_own_their_cache.
+Print Assumptions C01_unfaulted_encrypt_succeeds_with_closes_of_sessions_and_factories.
 
-Example C01_unfaulted_encrypt_own_closing_nonvacuous :
+Example C01_unfaulted_encrypt_after_closes_nonvacuous :
   let h := snd (hrun (hinit Rotation.t0) LiveCloseD.own_closing_ops) in
   LiveD.nz_storeb (w_store (h_world h)) = true /\
   (new_key_timestamp (w_now (h_world h)) (p_precision Rotation.pol100) =? 0)%Z = false /\
